@@ -416,8 +416,9 @@ def rule_settings(P) -> RuleResult:
     ds = sh.classes['DispatchingShell'].methods.get('do_set') if 'DispatchingShell' in sh.classes else None
     if ds is None:
         raise AnalysisError('anchor vanished: DispatchingShell.do_set')
-    from .sx_compiler import set_name_cases
+    from .sx_compiler import set_name_cases, format_parser_cases
     set_name_cases(P, res)
+    format_parser_cases(P, res)
     # (e) every setting is consumed: keyword of a renderer, or read explicitly
     consumed = set()
     for mod in ('beanquery.query_render',):
